@@ -261,9 +261,11 @@ CLAIMS.update({
          "process; the commit issues no call that could copy data into the cache; reads through a link are verified like "
          "any read (C01) whatever the target holds now; reading follows the link; a wrong declared size is rejected. TOTAL "
          "CORRECTNESS of the commit (Lemmas/LinkRefine, healthy run, by address and keyed): a free address gets the link; "
-         "regular content at the address is kept, never replaced by a link; an EARLIER LINK at the address - stale, dangling "
-         "or good - is replaced by a link to the target just read (temp link + rename, nothing left in tmp, nothing else "
-         "changed), after which read_hash of the returned address and read of the key answer exactly the target's bytes (F18). "
+         "regular content at the address is kept, never replaced by a link; an EARLIER LINK at the address is kept when it already "
+         "leads to the very file being linked (relink_same_file_kept: nothing is written, tmp untouched) and otherwise - "
+         "stale, dangling, leading elsewhere - replaced by a link to the target just read (temp link + rename, nothing left "
+         "in tmp, nothing else changed); in both cases read_hash of the returned address and read of the key answer exactly "
+         "the target's bytes (F18). "
          "Correspondence: absolute/relative targets, partial reads before commit, wrong declarations, pre-existing "
          "content, an address already linked from another file that was since removed / rewritten / kept, target "
          "modified/removed afterwards.",
